@@ -1,2 +1,5 @@
 -- Root of the `SonicSpec` library: models, proofs and property theorems.
 import SonicSpec.Model.Hex
+import SonicSpec.Model.Str
+import SonicSpec.Driver.Dispatch
+import SonicSpec.Props.C20
